@@ -135,6 +135,9 @@ func c40Scenarios() []vshard.Scenario {
 
 func TestVerifC40(t *testing.T) {
 	cfg := vshard.Config{Delay: true, Bound: 2, MaxPoints: 8000}
+	if os_Getenv("VERIF_TIER") == "thorough" {
+		cfg.Bound = 3
+	}
 	if vshard.IsWorker() {
 		vshard.Serve(c40Scenarios(), cfg)
 		return
